@@ -40,6 +40,12 @@ __all__ = ['ManageSieveService', 'ManageSieveServer', 'ManageSieveConnection']
 _log = logging.getLogger(__name__)
 
 
+class _LineTooLong(Exception):
+    # The line exceeded the stream limit and part of it has been discarded,
+    # so the stream cannot be resynchronized.
+    pass
+
+
 class ManageSieveService(ServiceInterface):  # pragma: no cover
     """A pymap service that implements a ManageSieve server to control the
     sieve scripts associated with a login.
@@ -172,7 +178,10 @@ class ManageSieveConnection:
     async def _read_data(self) -> memoryview:
         data = bytearray()
         while True:
-            line = await self.reader.readline()
+            try:
+                line = await self.reader.readline()
+            except ValueError as exc:
+                raise _LineTooLong() from exc
             if not line.endswith(b'\n'):
                 raise EOFError()
             data += line
@@ -318,6 +327,8 @@ class ManageSieveConnection:
                 cmd = await self._read_command()
             except (ConnectionError, EOFError):
                 break
+            except _LineTooLong:
+                resp = Response(Condition.BYE, text='Line too long.')
             except NotParseable as exc:
                 resp = BadCommandResponse(exc)
             else:
@@ -340,6 +351,8 @@ class ManageSieveConnection:
                             resp = await self._do_unauthenticate()
                         else:
                             resp = await self._state.run(cmd)
+                except _LineTooLong:
+                    resp = Response(Condition.BYE, text='Line too long.')
                 except Exception:
                     _log.exception('Unhandled exception')
                     resp = Response(Condition.NO, text='Server error.')
